@@ -27,6 +27,8 @@ fn main() {
         "structured" => for s in &scen_build::structured(seed, thorough) { sink.build(s); },
         "modes" => for s in &scen_build::modes(seed, thorough) { sink.build(s); },
         "total" => { for s in &scen_build::total(seed, thorough) { sink.build(s); } scen_build::giant(&mut sink, thorough); },
+        "discovered" => for s in &scen_build::discovered(&arg(&args, "--corpus", "")) { sink.build(s); },
+        "svgdiscovered" => fqv::scen_render::svg_discovered(&mut sink, seed, &arg(&args, "--corpus", "")),
         "giant" => scen_build::giant(&mut sink, thorough),
         "corrupt" => for (s, errs) in &scen_build::corrupt_specs(seed, thorough) {
             let o = run_build(s);
